@@ -99,7 +99,9 @@ def judge(prog: Any, ref: Any, run: dict[str, Any], info: dict[str, Any]) -> lis
         for sid, (hd, new) in last_by.items():
             if hd not in REGULAR:
                 continue
-            if hd == "StartStage" and new != "RUNNING":
+            if (hd == "StartStage" and new != "RUNNING") or hd == "ContinueParentStage":
+                # (ContinueParentStage changes a stage's status only on its own give-up path: "exceeded max retries
+                # waiting for child stages" -> TERMINAL)
                 # StartStage's give-up path ("exceeded max retries waiting for upstream stages" -> TERMINAL) is a
                 # time-out, not one of the regular start / complete / fail / skip / cancel steps the property names
                 continue
